@@ -49,7 +49,7 @@ class _Blocked(BaseException):
     pass
 
 
-ALIASES = {'PackQ': 'Pack', 'AbortVoted': 'Abort', 'AbortStaged': 'Abort', 'EarlyStore': 'Store', 'StaleStore': 'Store', 'RestoreAny': 'Restore', 'AbortFailed': 'Abort', 'NewOidQ': 'NewOid', 'CloseReopenQ': 'CloseReopen', 'DeleteQ': 'Delete'}
+ALIASES = {'PackQ': 'Pack', 'PackFailQ': 'PackFail', 'AbortVoted': 'Abort', 'AbortStaged': 'Abort', 'EarlyStore': 'Store', 'StaleStore': 'Store', 'RestoreAny': 'Restore', 'AbortFailed': 'Abort', 'NewOidQ': 'NewOid', 'CloseReopenQ': 'CloseReopen', 'DeleteQ': 'Delete'}
 
 
 class StorageReplayer:
@@ -197,6 +197,21 @@ class StorageReplayer:
                 sec, gc = args
                 from ZODB.serialize import referencesf
                 st.pack(clock.T0 + sec + 0.5, referencesf, gc=bool(gc))
+            elif action == 'PackFail':
+                sec, gc = args
+                from ZODB.serialize import referencesf
+                from .. import faultfs
+                faultfs.S.fail_filter = lambda e: str(e.get('file', '')).endswith('.pack') and e['op'] == 'write'
+                faultfs.S.fail_kind = self.opts.get('fault_kind', 'error')
+                faultfs.S.fail_persist = False
+                faultfs.S.counted = 0
+                faultfs.S.failed = 0
+                faultfs.S.fail_at = self.opts.get('fault_k', 0)
+                try:
+                    st.pack(clock.T0 + sec + 0.5, referencesf, gc=bool(gc))
+                finally:
+                    self.fault_hit = faultfs.S.failed
+                    faultfs.S.fail_at = None
             elif action == 'NewOid':
                 oid = st.new_oid()
                 extra['oid'] = u64(oid)
@@ -448,7 +463,7 @@ def replay_behaviour(job):
             mm = rp.step(a, step['args'], step['state'])
             what = 'outcome'
             ltid = step['state'].get('ltid')
-            if a == 'VoteFail' and mm and not getattr(rp, 'fault_hit', 0):
+            if ALIASES.get(a, a) in ('VoteFail', 'PackFail') and mm and not getattr(rp, 'fault_hit', 0):
                 result['fault_not_reached'] = True      # the vote issued fewer raw operations than fault_k: not a verdict
                 break
             if not mm:
